@@ -234,12 +234,20 @@ func reqText(der []byte) string {
 
 func execRqd(f []string) zv.Out {
 	der := zv.UnHex(f[1])
+	orig := append([]byte{}, der...)
 	t := reqText(der)
 	tag := "rqd:ok"
 	if t == "err" {
 		tag = "rqd:err"
 	}
-	return zv.Out{Go: t, Tags: []string{tag}}
+	o := zv.Out{Go: t, Tags: []string{tag}}
+	// the input is only read, and parsing it again gives the same answer
+	if !bytes.Equal(der, orig) {
+		o.Viol = "ParseRequest modified the bytes handed in"
+	} else if t2 := reqText(der); t2 != t {
+		o.Viol = "ParseRequest on the same bytes a second time: " + t2 + " after " + t
+	}
+	return o
 }
 
 func execTime(f []string) zv.Out {
